@@ -645,7 +645,7 @@ pub fn record_c20(a: &Args) -> usize {
                                 let st = Rc::new(RefCell::new(PortState::new(prior.clone())));
                                 st.borrow_mut().fail = fail.to_string();
                                 runs += 1;
-                                st.borrow_mut().fail_kind = runs; // independent of the rotation of constructors: every kind meets every call
+                                st.borrow_mut().fail_kind = runs / 3; // changes every third run: every kind meets every constructor and every call
                                 let port = IPort::new(st.clone());
                                 // the caller's time-out: ordinary values, zero, sub-millisecond, beyond 2^31 ms, beyond 2^32 s, the maximum
                                 let timeout: Duration = [
@@ -661,7 +661,7 @@ pub fn record_c20(a: &Args) -> usize {
                                     Duration::from_nanos(1),
                                 ][k % 10];
                                 let treq = format!("{}.{:09}", timeout.as_secs(), timeout.subsec_nanos());
-                                out.emit(json!({"e": "setup", "ctor": ctor, "prior": line_json(&prior), "timeout": treq, "fail": fail, "kind": runs % 6}));
+                                out.emit(json!({"e": "setup", "ctor": ctor, "prior": line_json(&prior), "timeout": treq, "fail": fail, "kind": (runs / 3) % 6}));
                                 let res = match *ctor {
                                     "configure_port" => {
                                         let mut port = port;
